@@ -34,10 +34,21 @@ def offsets(n):
     return out
 
 
-def render(pristine, dirty, hexonly=None, ws_append=False):
-    """File bytes for a set of dirty regions (canonical order: flips, then truncate, then append)."""
+def render(pristine, dirty, hexonly=None, ws_append=False, spaces_only=False):
+    """File bytes for a set of dirty regions (canonical order: flips, then truncate, then append).
+    spaces_only (used for the source file, from which `generate` may be run again): flips are moved to the nearest
+    space character and turn it into a tab, so that the bytes change but the JSON value - and with it the directories
+    the configuration names - stays what it was."""
     b = bytearray(pristine)
     offs = offsets(len(b)) if hexonly is None else {k: hexonly[i] for i, k in enumerate(("first", "last", "mid", "b8192", "in8k"))}
+    if spaces_only and hexonly is None:
+        sp = [i for i, ch in enumerate(pristine) if ch == 0x20]
+        used = set()
+        for k in list(offs):
+            cands = sorted(sp, key=lambda i: abs(i - offs[k]))
+            o = next((i for i in cands if i not in used), offs[k])
+            used.add(o)
+            offs[k] = o
     for r in ("first", "in8k", "b8192", "mid", "last"):
         if r in dirty:
             o = offs[r]
@@ -117,7 +128,8 @@ def c17_history(bins, beh, hist, size, rng):
             return [j + k for k in (0, 63, 31, 16, 8, 40, 50)]
         def apply(file):
             p = {"src": src_path, "gen": gen_path, "lock": lock_path}[file]
-            data = render(pristine[file], dirty[file], hexpos() if file == "lock" else None, ws_append=(beh % 2 == 0))
+            data = render(pristine[file], dirty[file], hexpos() if file == "lock" else None, ws_append=(beh % 2 == 0),
+                          spaces_only=(file == "src"))
             st = os.stat(p)
             with open(p, "wb") as f:
                 f.write(data)
